@@ -282,7 +282,13 @@ pub fn op(p: &Profile, depth: u32, in_cb: bool, d: &mut Dec) -> Op {
             1 => Op::Wake { task: d.u16() },
             _ => Op::DropScheduler { src: d.u16() },
         },
-        10 => Op::Wakeup,
+        10 => {
+            if d.pickw(&[3, 1]) == 0 {
+                Op::Wakeup
+            } else {
+                Op::Stop
+            }
+        }
         _ => {
             let max = p.max_timeout_ms;
             Op::Dispatch { timeout_ms: if max == 0 || d.pickw(&[4, 1]) == 0 { 0 } else { d.u8r(1, max) } }
